@@ -66,12 +66,12 @@ def sweepLStake (endT : Int) : List ((Addr × Hash) × LStakeE) → List ((Addr 
   | (k, e) :: r => if e.revoke ≠ 0 ∧ e.revoke < endT then sweepLStake endT r else (k, e) :: sweepLStake endT r
 
 /-- liquidity UpdateEmbedded as far as the stake entries go; the ZNN / QSR of the epoch are MINTED to the contract by
-    descendant Mint calls of amount 0 (`mints` = token, amount, recipient; what is minted to the contract itself arrives
+    descendant Mint calls of amount 0 and token standard zero (`mints` = token, amount, recipient; what is minted to the contract itself arrives
     through a later receive of the contract: + amount, no new liability) -/
 def liquidityUpdate (ends : List Int) (mints : List (Tok × Nat × Addr)) : Method Liquidity := fun s c =>
   if c.amount ≠ 0 then none
   else some ({ s with entries := ends.foldl (fun l e => sweepLStake e l) s.entries },
-             mints.map fun m => ⟨tokenContract, znnTok, 0, .mint m.1 m.2.1 m.2.2⟩)
+             mints.map fun m => ⟨tokenContract, zeroTok, 0, .mint m.1 m.2.1 m.2.2⟩)
 
 /-- CollectRewardMethod.ReceiveBlock (common.go): the reward deposit of the caller is deleted (reward storage, not part
     of the modelled entries) and minted to the caller by the token contract — descendant Mint calls carrying amount 0;
